@@ -175,6 +175,12 @@ def validate_taxonomy_tree(
             "tree has no 'hierarchy'")
     hierarchy = taxonomy_tree['hierarchy']
 
+    if 'cell_id' in hierarchy:
+        # each cell's record in the mapping output holds its
+        # identifier under 'cell_id', next to one entry per level
+        raise RuntimeError(
+            "'cell_id' cannot be the name of a taxonomic level")
+
     expected_keys = set(hierarchy)
     expected_keys.add('hierarchy')
     bad_keys = {'metadata', 'name_mapper', 'hierarchy_mapper'}
